@@ -12,6 +12,14 @@ TRUST = ('Trusted base: rustc nightly THIR/MIR for this source (same cfgs as the
          'the evidence file.')
 
 CHECKS = {
+    'C11': {
+        'technique': 'crate-wide assignment census of oper/local_oper with guard entailment; effect-key provenance in user MODE; guard entailment and refusal-condition equivalence for KILL/DIE/SQUIT/WALLOPS/STATS',
+        'level': ('Decides that operator flags are raised only in OPER under (configured name, verified password, mask) for the '
+                  'own user or copied from the configured defaults (the MODE +o/+O paths of the pinned tree are reported as known '
+                  'findings), that user MODE acts only on the own nick, that operator commands act only under the operator '
+                  'predicate and refuse otherwise, that KILL names the killer and WALLOPS fans out over exactly the +w set.'),
+        'note': TRUST + ' wallops_users == users with +w is the coupling result of C19.',
+    },
     'C08': {
         'technique': 'effect census of process_mode_channel keyed by mode letter; guard entailment per letter; effect/announcement pairing on the same path; writer/enforcer/renderer field agreement',
         'level': ('Decides for every mode string that each channel-mode effect is guarded by the rank the statement assigns to '
